@@ -434,8 +434,9 @@ Lemma shows_intro vis p m q msg w middle u :
     | None => false
     | Some line2 =>
       let cont_ok := fun c : str =>
-        eqs c (pad_left w (dec L2) ++ lit " | " ++ display false line2) ||
-        eqs c (pad_left w (dec L2) ++ lit " | " ++ display true line2) in
+        Nat.leb (length (dec L2)) w &&
+        (eqs c (pad_left w (dec L2) ++ lit " | " ++ display false line2) ||
+         eqs c (pad_left w (dec L2) ++ lit " | " ++ display true line2)) in
       match middle with
       | [c] => negb (Nat.ltb 1 (length rest)) && cont_ok c
       | [dots; c] => Nat.ltb 1 (length rest) && eqs dots (sp ++ lit " | ...") && cont_ok c
@@ -622,8 +623,10 @@ Proof.
     + rewrite Emeet. cbn [length]. apply Hm2.
     + rewrite Emeet. cbn zeta. rewrite last_cons_default. fold r2. rewrite Es2. fold L. cbn [length].
       rewrite <- HLe. replace (Le - L) with (S (length rest)) by lia.
+      assert (Hw : Nat.leb (length (dec Le)) w = true)
+        by (subst w; rewrite Nat.max_r by lia; apply Nat.leb_refl).
       destruct (Nat.ltb 1 (S (length rest))); cbn [negb andb];
-        rewrite ?eqs_refl; cbn [andb];
+        rewrite ?eqs_refl; cbn [andb]; rewrite Hw; cbn [andb];
         rewrite !(app_assoc (pad_left w (dec Le)) (lit " | ")), !eqs_app_prefix; exact Hcl2.
 Qed.
 
